@@ -112,11 +112,12 @@ class LabReplay:
         objs = {}
         for n in self.names:
             v = spec_state[n]
+            disp = n[:-4] if n.endswith("_dup") else n       # "<x>_dup": a different object carrying the name <x>
             if self.shape[n] == (0, 0):
-                objs[n] = self.build_container(n, v["cap"], v["w"][0])
+                objs[n] = self.build_container(disp, v["cap"], v["w"][0])
             else:
                 nr, nc = self.shape[n]
-                p = self.pp.Plate(n, self.inst.capacity(v["cap"]), rows=nr, columns=nc)
+                p = self.pp.Plate(disp, self.inst.capacity(v["cap"]), rows=nr, columns=nc)
                 for i, w in enumerate(v["w"]):
                     if any(x != 0 for x in w["c"].values()):
                         r, c = divmod(i, nc)
@@ -279,7 +280,9 @@ class LabReplay:
             if post_key not in self.states:
                 new_objs = dict(objs)
                 new_objs.update(out.new)
-                self.states[post_key] = {"objs": new_objs, "depth": k, "parent": (pre_key, ev), "fps": None}
+                self.states[post_key] = {"objs": new_objs, "depth": k, "parent": (pre_key, ev), "fps": None,
+                                         # amounts derived from a stated concentration carry the library's rounding of it
+                                         "inexact": st.get("inexact", False) or ev["op"] in ("dilute", "create_solution", "create_solution_from")}
                 self.counts["states_built"] += 1
         else:
             self.counts["diverged"] += 1
@@ -357,8 +360,7 @@ class LabReplay:
                 st["fps"][n] = self.P.fp(o)      # report once, do not cascade
         for a in out.args:
             if isinstance(a, self.pp.PlateSlicer):
-                n = a.plate.name
-                if a.plate is not objs.get(n):
+                if not any(a.plate is o for o in objs.values()):
                     self.report("C04", "slice_repointed", key,
                                 f"{out.call}: the slice passed in now refers to another plate object", ev, ctx["pre_key"])
         for n, o in out.new.items():
@@ -405,7 +407,7 @@ class LabReplay:
         and only where the decision involves nothing beyond adding / subtracting the user's numbers."""
         ev, inst = ctx["ev"], self.inst
         op = ev["op"]
-        if op == "dilute":
+        if op == "dilute" or ctx["st"].get("inexact", False):
             return False
         vals = []
         if op == "transfer":
@@ -429,17 +431,15 @@ class LabReplay:
         for q, u in vals:
             if not inst.quantity_exact(q, u):
                 return False
-        # every stored amount and volume involved, before and after, is a short decimal of a magnitude at which
-        # the library's rounding to 1e-10 is effective (a double carries ~16 digits: above ~5e4 it is not)
+        # every stored amount and volume involved, before and after, is a short decimal (the numbers the user typed
+        # are exactly representable to the library's precision, so rounding cannot excuse a refusal)
         for n in names:
             for st in (ctx["spec_pre"], ctx["spec_post"]):
                 for w in st[n]["w"]:
                     for s, x in w["c"].items():
                         am, vo = x * inst.amount_store_scale(s), x * VOLPER[s] * inst.vol_store_scale()
-                        if not model.is_short_decimal_ok(am) or not model.is_short_decimal_ok(vo) or am > 50000:
+                        if not model.is_short_decimal_ok(am) or not model.is_short_decimal_ok(vo):
                             return False
-                    if w["vol"] * inst.vol_store_scale() > 50000:
-                        return False
         return True
 
     def mon_c01(self, ctx):
